@@ -10,6 +10,7 @@ package ws
 
 import (
 	"bytes"
+	"errors"
 	"fmt"
 	"io"
 	"strings"
@@ -44,6 +45,54 @@ func exists(lo, hi int, f func(k int) bool) bool {
 
 func ghostOld() {}
 
+// ghostStream is the executable stand-in for an abstract io.Reader / io.Writer in the replay
+// tests that /verif generates from solver counterexamples: the ghost functions below are
+// executable on it (and only on it). Read hands out everything that is left, then the terminal
+// error; Write accepts everything.
+type ghostStream struct {
+	in    []byte
+	pos   int
+	err   error
+	out   []byte
+	calls int
+}
+
+var errGhostTransport = errors.New("ghost transport error")
+
+func (g *ghostStream) Read(p []byte) (int, error) {
+	if g.pos >= len(g.in) {
+		return 0, g.err
+	}
+	n := copy(p, g.in[g.pos:])
+	g.pos += n
+	return n, nil
+}
+
+func (g *ghostStream) Write(p []byte) (int, error) {
+	g.out = append(g.out, p...)
+	g.calls++
+	return len(p), nil
+}
+
+func cloneGhost(x interface{}) *ghostStream {
+	g, ok := x.(*ghostStream)
+	if !ok || g == nil {
+		return nil
+	}
+	c := *g
+	c.in = append([]byte(nil), g.in...)
+	c.out = append([]byte(nil), g.out...)
+	return &c
+}
+
+func ghostOf(x interface{}, what string) *ghostStream {
+	g, ok := x.(*ghostStream)
+	if !ok || g == nil {
+		panic("ghost: " + what + " is not executable on this value")
+	}
+	return g
+}
+
 func iteInt(c bool, a, b int) int {
 	if c {
 		return a
@@ -59,13 +108,13 @@ func iteByte(c bool, a, b byte) byte {
 }
 
 // Abstract stream state of an io.Reader / io.Writer (uninterpreted in the VCs).
-func inPos(r io.Reader) int                  { panic("ghost: inPos is not executable") }
-func inEnd(r io.Reader) int                  { panic("ghost: inEnd is not executable") }
-func inByte(r io.Reader, i int) byte         { panic("ghost: inByte is not executable") }
-func inErr(r io.Reader) error                { panic("ghost: inErr is not executable") }
-func outLen(w io.Writer) int                 { panic("ghost: outLen is not executable") }
-func outCalls(w io.Writer) int               { panic("ghost: outCalls is not executable") }
-func outByte(w io.Writer, i int) byte        { panic("ghost: outByte is not executable") }
+func inPos(r io.Reader) int                  { return ghostOf(r, "inPos").pos }
+func inEnd(r io.Reader) int                  { return len(ghostOf(r, "inEnd").in) }
+func inByte(r io.Reader, i int) byte         { return ghostOf(r, "inByte").in[i] }
+func inErr(r io.Reader) error                { return ghostOf(r, "inErr").err }
+func outLen(w io.Writer) int                 { return len(ghostOf(w, "outLen").out) }
+func outCalls(w io.Writer) int               { return ghostOf(w, "outCalls").calls }
+func outByte(w io.Writer, i int) byte        { return ghostOf(w, "outByte").out[i] }
 func sameBase(a, b []byte) bool              { panic("ghost: sameBase is not executable") }
 func offOf(a []byte) int                     { panic("ghost: offOf is not executable") }
 func rangeIdx() int                          { panic("ghost: rangeIdx is not executable") }
